@@ -145,6 +145,8 @@ def main(pid):
     # (a style-tag repair that extends a span over the next one)
     for extra_cfg, const in (("MC_Annotate_wfsc.cfg", "WfOnly tokens t1 <b> </b> <br/> MaxToks=7 MaxAnns=1"),
                              ("MC_Annotate_style2.cfg", "WfOnly tokens t1 <i> </i> MaxToks=6 MaxAnns=2"),
+                             # <div> elements: the element name is_balanced_html itself wraps the span in
+                             ("MC_Annotate_wfdiv.cfg", "WfOnly tokens t1 <div> </div> <i> </i> MaxToks=7 MaxAnns=1"),
                              # sources that LACK parts of the plain text (deletions in the diff, also leading ones)
                              ("MC_Annotate_del6.cfg" if thorough else "MC_Annotate_del.cfg", "tokens t1 d1 (plain-only text) MaxToks=%d MaxAnns=2" % (6 if thorough else 5)),
                              ("MC_Annotate_deltag.cfg", "tokens t1 d1 <i> </i> MaxToks=5 MaxAnns=1")):
